@@ -40,9 +40,28 @@ fn finite(p: &TheoreticalIsotopicPattern) -> bool {
     p.origin.is_finite() && p.peaks.iter().all(|q| q.mz.is_finite() && q.intensity.is_finite())
 }
 
+/// the read accessors of a pattern must all describe the `peaks` vector it holds
+fn views_agree(p: &TheoreticalIsotopicPattern) -> bool {
+    let n = p.peaks.len();
+    let same = |a: &Peak, b: &Peak| a.mz.to_bits() == b.mz.to_bits() && a.intensity.to_bits() == b.intensity.to_bits();
+    let mut ok = p.len() == n && p.is_empty() == (n == 0) && p.iter().count() == n;
+    ok &= p.iter().zip(p.peaks.iter()).all(|(a, b)| same(a, b));
+    ok &= (0..n).all(|i| same(&p[i], &p.peaks[i]) && p[i].mz() == p.peaks[i].mz && p[i].intensity() == p.peaks[i].intensity as f32);
+    let c = p.clone();
+    ok &= c.origin.to_bits() == p.origin.to_bits() && c.peaks.len() == n;
+    let v: Vec<Peak> = c.into_iter().collect();
+    ok &= v.len() == n && v.iter().zip(p.peaks.iter()).all(|(a, b)| same(a, b));
+    let w: Vec<Peak> = p.clone().into();
+    ok &= w.len() == n && w.iter().zip(p.peaks.iter()).all(|(a, b)| same(a, b));
+    ok
+}
+
 fn show_pattern(p: &TheoreticalIsotopicPattern) -> String {
     if !finite(p) {
         return "nonfinite".into();
+    }
+    if !views_agree(p) {
+        return "views-differ".into();
     }
     format!("ok {} {}", frac(p.origin), show_peaks(&p.peaks))
 }
